@@ -13,6 +13,7 @@ import (
 	"github.com/relex/gotils/channels"
 	"github.com/relex/gotils/logger"
 	"github.com/relex/slog-agent/base"
+	"github.com/relex/slog-agent/defs"
 	"github.com/relex/slog-agent/zz_verif/fakenet"
 	"github.com/relex/slog-agent/zz_verif/sym"
 )
@@ -25,6 +26,7 @@ type verifRecvSink struct {
 	acceptedAfter bool
 	conn          *net.TCPConn
 	flushAfter    []int // number of Read calls made when each Flush happened
+	flushAt       []int // virtual time of each Flush
 }
 
 func (s *verifRecvSink) Accept(message []byte) {
@@ -39,6 +41,7 @@ func (s *verifRecvSink) Flush() {
 	s.sinceFlush = 0
 	if s.conn != nil {
 		s.flushAfter = append(s.flushAfter, fakenet.Reads(s.conn))
+		s.flushAt = append(s.flushAt, sym.VirtualNow())
 	}
 }
 func (s *verifRecvSink) Close() {
@@ -143,7 +146,7 @@ func VerifC08_ConnectionFlushTiming() { verifConnScenario() }
 func VerifC18_ConnectionStops() { verifConnScenario() }
 
 // VerifC08_ConnectionMultiLine: a multi-line record whose lines arrive in two
-// reads, between single-line records, with symbolic pauses (0 or 1.5 flush
+// reads, between single-line records, with symbolic pauses (none, 10 ms, or 1.5 flush
 // intervals of virtual time) before each fragment: (a) the handler flushes
 // only after a read that timed out or that renewed the read deadline (the
 // periodic tick) - never between two reads that no tick separates; (b) when no
@@ -159,7 +162,8 @@ func VerifC08_ConnectionMultiLine() {
 	multi := []byte("<>m1\n c\n")
 	cut := 1 + sym.Choice("cut", len(multi)-1)
 	pause := func(name string) time.Duration {
-		return []time.Duration{0, 750 * time.Millisecond}[sym.Choice(name, 2)]
+		// no pause, a pause far below the flush interval (back-to-back segments), a pause of 1.5 flush intervals
+		return []time.Duration{0, 10 * time.Millisecond, 750 * time.Millisecond}[sym.Choice(name, 3)]
 	}
 	script := []fakenet.Event{
 		{Data: []byte("<>a1\n")},
@@ -179,6 +183,17 @@ func VerifC08_ConnectionMultiLine() {
 	l.taskCounter.Wait()
 	log := fakenet.ReadLog(conn)
 	sym.Assert(len(log) == len(script), "one read per scripted event")
+	// the tick is periodic: the connection's read deadline is renewed only when less than one flush interval of it
+	// is left, so two renewals are more than one flush interval apart however closely the segments follow each other
+	lastRenewal := int64(-1)
+	for _, r := range log {
+		if r.Renewed {
+			if lastRenewal >= 0 {
+				sym.Assert(r.At-lastRenewal >= int64(defs.InputFlushInterval), "the read deadline (the flush tick) is renewed at most once per flush interval: segments arriving back to back are not flushed apart")
+			}
+			lastRenewal = r.At
+		}
+	}
 	tickBetweenFragments := false
 	for _, after := range sink.flushAfter {
 		if after >= len(script) {
